@@ -163,7 +163,11 @@ def replay_one(obj, ctx, opts):
             try:
                 got = {"exc": "", "p": list(getattr(fog, name)(q))}
             except (exc.PerfectVisibility, exc.FullDirectionalVisibility) as ex:
-                got = {"exc": type(ex).__name__, "p": []}
+                # by isinstance, not by name: an exception that is also an instance of the other
+                # class would be caught by handlers of the other condition
+                got = {"exc": "+".join(n for n, c in (("FullDirectionalVisibility", exc.FullDirectionalVisibility),
+                                                      ("PerfectVisibility", exc.PerfectVisibility)) if isinstance(ex, c)),
+                       "p": []}
             except Exception as ex:  # noqa
                 got = {"exc": "other:" + type(ex).__name__, "p": []}
             if got not in e["acc"]:
